@@ -39,8 +39,9 @@ type Req struct {
 	Kind   string // heights | dblock | fblock | eblock | entry | other
 	Height uint32 // height the requested object belongs to (0 for heights)
 	Hash   string
-	Sync   bool  // false: made by an API handler goroutine
-	GID    int64 // goroutine id
+	Chain  string // eblock / entry requests: opr | spr | tx
+	Sync   bool   // false: made by an API handler goroutine
+	GID    int64  // goroutine id
 }
 
 // FakeNode serves a Chain.
@@ -191,10 +192,26 @@ func (f *FakeNode) RoundTrip(hr *http.Request) (*http.Response, error) {
 		}
 		b := f.block(h)
 		r.Height = h
+		raw := b.raw[p.Hash]
+		chainOf := func(off int) string {
+			if len(raw) >= off+32 {
+				switch {
+				case bytes.Equal(raw[off:off+32], OPRChainID[:]):
+					return "opr"
+				case bytes.Equal(raw[off:off+32], SPRChainID[:]):
+					return "spr"
+				case bytes.Equal(raw[off:off+32], TXChainID[:]):
+					return "tx"
+				}
+			}
+			return "other"
+		}
 		if b.ekeys[p.Hash] {
 			r.Kind = "entry"
+			r.Chain = chainOf(1) // entry: version byte, then the chain id
 		} else {
 			r.Kind = "eblock"
+			r.Chain = chainOf(0)
 		}
 		result = fmt.Sprintf(`{"data":"%s"}`, hex.EncodeToString(b.raw[p.Hash]))
 	default:
